@@ -511,13 +511,6 @@ package framework
 //@ define lastOp(s *Statement) Operation = s.operations[len(s.operations) - 1]
 // the claim snapshot recorded in the last (evict) entry
 //@ define evSnap(s *Statement) bindrequest_info.ResourceClaimInfo = unbox(lastOp(s), "evictOperation").previousResourceClaimInfo
-// wfLog(s) after a call, in a form that names the pre-state entry next to the post-state one (each implies the
-// corresponding wf* part; the sameBelow conjunct is what lets the solvers connect the two logs)
-//@ define sameBelow(s *Statement, j int) bool = j < old(len(s.operations)) ==> s.operations[j] == old(s.operations[j])
-//@ define wfKnownStep(s *Statement) bool = forall j int :: 0 <= j && j < len(s.operations) ==> sameBelow(s, j) && knownOp(s.operations[j])
-//@ define wfRevStep(s *Statement) bool = forall j int :: 0 <= j && j < len(s.operations) ==> sameBelow(s, j) && revFn(s.operations[j]) != nil
-//@ define wfBackStep(s *Statement) bool = forall j int :: 0 <= j && j < len(s.operations) ==> sameBelow(s, j) && (isUndoOp(s.operations[j]) ==> 0 <= undoTarget(s.operations[j]) && undoTarget(s.operations[j]) < j)
-//@ define wfTaskStep(s *Statement) bool = forall j int :: 0 <= j && j < len(s.operations) ==> sameBelow(s, j) && (!isUndoOp(s.operations[j]) ==> opTask(s.operations[j]) != nil)
 //@ define appendedOne(s *Statement) bool = len(s.operations) == old(len(s.operations)) + 1 && (forall j int :: 0 <= j && j < old(len(s.operations)) ==> s.operations[j] == old(s.operations[j]))
 
 //@ func (*Statement).Evict
@@ -556,14 +549,13 @@ package framework
 //@   ensures [otherFieldsKept] reclaimeeTask.NodeName == old(reclaimeeTask.NodeName) && reclaimeeTask.GPUGroups == old(reclaimeeTask.GPUGroups) && reclaimeeTask.ResourceClaimInfo == old(reclaimeeTask.ResourceClaimInfo)
 //@   ensures [handlerPolarity] allocEvents() == old(allocEvents())
 //@   ensures [virtual] noEmission() && reversals() == old(reversals())
-//@   # callers chain statement operations: the log shape survives the call
+//@   # callers chain statement operations: with [lenGrows] + [prefixKept] + [newEntriesOK], wfLog(s) before the
+//@   # call gives wfLog(s) after it (the direct form `old(wfLog(s)) ==> wfLog(s)` is true but takes the solvers > 20 s here)
 //@   ensures [lenGrows] len(s.operations) >= old(len(s.operations))
 //@   ensures [prefixKept] forall j int :: 0 <= j && j < old(len(s.operations)) ==> s.operations[j] == old(s.operations[j])
-//@   ensures [E1] result == nil ==> okEntry(lastOp(s), len(s.operations) - 1)
-//@   ensures [E2] result != nil ==> len(s.operations) == old(len(s.operations))
-//@   ensures [E3] old(wfKnown(s)) && result != nil ==> wfKnownStep(s)
-//@   ensures [E4] old(wfKnown(s)) && result == nil ==> wfKnownStep(s)
-//@   ensures [E5] old(wfKnown(s)) && result == nil ==> wfKnown(s)
+//@   ensures [errorKeepsLen] result != nil ==> len(s.operations) == old(len(s.operations))
+//@   ensures [newEntriesOK] forall j int :: old(len(s.operations)) <= j && j < len(s.operations) ==> okEntry(s.operations[j], j)
+//@   ensures [sessionKept] sessionKept(s.ssn)
 //@ end
 
 //@ func (*Statement).Allocate
@@ -582,17 +574,17 @@ package framework
 //@   ensures [appendsOneAllocate] result == nil ==> appendedOne(s) && isAllocateOp(lastOp(s))
 //@   ensures [capturesClone] result == nil ==> unbox(lastOp(s), "allocateOperation").taskInfo != task && unbox(lastOp(s), "allocateOperation").taskInfo.UID == task.UID && unbox(lastOp(s), "allocateOperation").taskInfo.Job == task.Job && unbox(lastOp(s), "allocateOperation").taskInfo.Pod == task.Pod && unbox(lastOp(s), "allocateOperation").taskInfo.NodeName == hostname
 //@   ensures [capturesNode] result == nil ==> unbox(lastOp(s), "allocateOperation").nextNode == old(s.ssn.ClusterInfo.Nodes[hostname]).Name
-//@   ensures [reversible] result == nil ==> unbox(lastOp(s), "allocateOperation").reverseOperation != nil
+//@   ensures [reversible] result == nil ==> unbox(lastOp(s), "allocateOperation").reverseOperation != nil && unbox(lastOp(s), "allocateOperation").taskInfo != nil
 //@   ensures [nowAllocated] result == nil ==> task.Status == pod_status.Allocated && task.NodeName == hostname && task.IsVirtualStatus
 //@   ensures [handlerPolarity] deallocEvents() == old(deallocEvents())
 //@   ensures [virtual] noEmission() && reversals() == old(reversals())
-//@   # callers chain statement operations: the log shape survives the call
+//@   # callers chain statement operations: with [lenGrows] + [prefixKept] + [newEntriesOK], wfLog(s) before the
+//@   # call gives wfLog(s) after it (the direct form `old(wfLog(s)) ==> wfLog(s)` is true but takes the solvers > 20 s here)
 //@   ensures [lenGrows] len(s.operations) >= old(len(s.operations))
 //@   ensures [prefixKept] forall j int :: 0 <= j && j < old(len(s.operations)) ==> s.operations[j] == old(s.operations[j])
-//@   ensures [wfKnownKept] old(wfKnown(s)) ==> wfKnownStep(s)
-//@   ensures [wfRevKept] old(wfRev(s)) ==> wfRevStep(s)
-//@   ensures [wfBackKept] old(wfBack(s)) ==> wfBackStep(s)
-//@   ensures [wfTaskKept] old(wfTask(s)) ==> wfTaskStep(s)
+//@   ensures [errorKeepsLen] result != nil ==> len(s.operations) == old(len(s.operations))
+//@   ensures [newEntriesOK] forall j int :: old(len(s.operations)) <= j && j < len(s.operations) ==> okEntry(s.operations[j], j)
+//@   ensures [sessionKept] sessionKept(s.ssn)
 //@ end
 
 // Unevict(task) = undo the earliest still valid evict entry of that task.
@@ -645,6 +637,12 @@ package framework
 //@   ensures [capturesTask] updateTaskIfExistsOnNode && result == nil ==> unbox(lastOp(s), "pipelineOperation").taskInfo == task && unbox(lastOp(s), "pipelineOperation").previousStatus == old(task.Status) && unbox(lastOp(s), "pipelineOperation").previousNode == old(task.NodeName) && unbox(lastOp(s), "pipelineOperation").nextNode == hostname && unbox(lastOp(s), "pipelineOperation").reverseOperation != nil
 //@   ensures [nowNominated] updateTaskIfExistsOnNode && result == nil ==> task.NodeName == hostname && task.IsVirtualStatus
 //@   ensures [handlerPolarity] updateTaskIfExistsOnNode ==> deallocEvents() == old(deallocEvents())
+//@   ensures [newEntriesOK] forall j int :: old(len(s.operations)) <= j && j < len(s.operations) ==> okEntry(s.operations[j], j)
+//@   # C03 "ShouldPipelineJob + ConvertAllAllocatedToPipelined": nominating never creates a bind entry. Only for the
+//@   # updateTaskIfExistsOnNode form: the other one may un-evict through Operation.Reverse, whose assumed contract allows any well-formed entry
+//@   ensures [noAllocateEntryAppended] updateTaskIfExistsOnNode ==> forall j int :: old(len(s.operations)) <= j && j < len(s.operations) ==> !isAllocateOp(s.operations[j])
+//@   ensures [statusPipelinedOrKept] updateTaskIfExistsOnNode ==> task.Status == pod_status.Pipelined || task.Status == old(task.Status)
+//@   ensures [sessionKept] updateTaskIfExistsOnNode ==> sessionKept(s.ssn)
 //@ end
 
 // ---- the closures stored in log entries ---------------------------------------------------------
@@ -797,3 +795,16 @@ package framework
 //@   fresh
 //@   ensures result.ssn == ssn && len(result.operations) == 0 && result.sessionID == ssn.ID
 //@ end
+
+// ---- stable fields (engine batch 7): set by the constructors only (Session.Statement, openSession / plugin
+// registration); govc checks mechanically, per unit, that no storing function is reachable, and then keeps these cells of
+// pre-existing objects across `modifies *` havocs
+//@ stable Statement.ssn
+//@ stable Statement.sessionID
+//@ stable Session.ClusterInfo
+//@ stable Session.Cache
+//@ stable Session.eventHandlers
+//@ stable Session.ReclaimScenarioValidatorFns
+//@ stable Session.PreemptScenarioValidatorFns
+//@ stable Session.ReclaimVictimFilterFns
+//@ stable Session.PreemptVictimFilterFns
